@@ -94,8 +94,33 @@ def repo_tree_hash():
 
 # ---------------------------------------------------------------- harness runs
 
-def run_harness(binp, pid, workdir, seed, n, tier, replay=None, timeout=1800, tag="gen"):
+def run_harness(binp, pid, workdir, seed, n, tier, replay=None, timeout=1800, tag="gen", procs=1):
+    """procs > 1: the generated cases are produced by several harness processes in parallel (for
+    properties whose cases take wall-clock time); every process derives its cases from seed*1000+i."""
     os.makedirs(workdir, exist_ok=True)
+    if procs > 1 and not replay:
+        per = (n + procs - 1) // procs
+        def one(i):
+            return run_harness(binp, pid, workdir, seed * 1000 + i, per, tier, None, timeout, "%s_p%d" % (tag, i), 1)
+        allc, logs = [], []
+        with ThreadPoolExecutor(max_workers=procs) as ex:
+            for cs, o in ex.map(one, range(procs)):
+                if cs is None:
+                    return None, o
+                allc.extend(cs)
+                logs.append(o)
+        # corpus cases are repeated by every process: keep the first copy
+        seen, out = set(), []
+        for c in allc:
+            if "corpus" in (c.get("tags") or []):
+                k = json.dumps(c.get("input"), sort_keys=True)
+                if k in seen:
+                    continue
+                seen.add(k)
+            out.append(c)
+        for j, c in enumerate(out):
+            c["i"] = j
+        return out, "\n".join(logs)
     out = os.path.join(workdir, "cases_%s.jsonl" % tag)
     cmd = [binp, pid, "-seed", str(seed), "-n", str(n), "-tier", tier, "-out", out]
     if replay:
